@@ -28,7 +28,7 @@ THEOREM_LIST = [
     'C18_split_total', 'C18_join_split', 'C18_split_no_sep_inside', 'C18_std_join_split',
     'C18_findSubstr_sound_complete', 'C18_findSubstr_in', 'C18_strip_decomposes', 'C18_strip_maximal',
     'C18_lstrip_spec', 'C18_rstrip_spec', 'C18_splitLimit_first_n', 'C18_splitLimitR_last_n',
-    'C18_rsplit_exists_clean', 'C18_splitLimit_join', 'C18_splitLimitR_join', 'C18_decoded_limit_positive',
+    'C18_splitLimitR_mirror', 'C18_rsplit_exists_clean', 'C18_splitLimit_join', 'C18_splitLimitR_join', 'C18_decoded_limit_positive',
     'C18_strReplace_is_join_split', 'C18_reverse_involutive', 'C18_char_codepoint_inverse',
     'C18_char_rejects_non_scalar', 'C18_codepoint_char_inverse', 'C18_stringChars_join', 'C18_map_length',
     'C18_flatMap_id', 'C18_nonvacuous_split', 'C18_nonvacuous_numbers', 'C18_nonvacuous_strip',
@@ -766,8 +766,8 @@ def check(run):
     run.add_proof(pres, THEOREMS)
     impl_exe = vlib.build_harness()
     model_exe = vlib.build_model('strfns')
-    n = 6000 if run.tier == 'quick' else 150000
-    nid = 1500 if run.tier == 'quick' else 30000
+    n = 6000 if run.tier == "quick" else 80000
+    nid = 1500 if run.tier == "quick" else 15000
     cases = []
     for i, (fn, args) in enumerate(corpus_cases()):
         cases.append(('k%d' % i, fn, args, program(fn, args, rng)))
